@@ -65,6 +65,18 @@ def make_objective(name, np, ub, rettype):
         # a hard constraint: +inf on one side of a hyperplane through the box, the sphere elsewhere
         mid = 0.5 * float(ubc[0, 0]) if ubc.size else 0.0
         return lambda x: conv(np.inf) if float(np.asarray(x).reshape(-1)[0]) > mid else conv(np.sum(x ** 2))
+    if name == 'bufout':
+        # the value is written into one pre-allocated 0-d array that is returned every time (`np.sum(..., out=buf)`)
+        buf = np.zeros(())
+
+        def f_buf(x):
+            np.sum(np.asarray(x, dtype=float) ** 2, out=buf)
+            return buf
+        return f_buf
+    if name == 'hugepen':
+        # a finite 'death penalty' far beyond the ordinary values (negative ones) on part of the box
+        mid = 0.5 * float(ubc[0, 0]) if ubc.size else 0.0
+        return lambda x: conv(1e20) if float(np.asarray(x).reshape(-1)[0]) > mid else conv(-1.0 - float(np.sum(np.abs(x))))
     if name == 'allinf':
         # infeasible everywhere (a constraint penalty that no point of the box escapes)
         return lambda x: conv(np.inf)
@@ -557,8 +569,9 @@ def build_task(L, cfg, events):
         sp = L['SearchSpace'](n_agents=cfg['n_agents'], n_variables=cfg['n_vars'], n_iterations=cfg['n_iter'],
                               lower_bound=np.array(cfg['lb'], dtype=cfg['bounds_dtype']), upper_bound=np.array(cfg['ub'], dtype=cfg['bounds_dtype']))
     elif cfg['space'] == 'search':
+        ub0 = [l_ + 3.0 * (u_ - l_) for l_, u_ in zip(cfg['lb'], cfg['ub'])] if cfg.get('shrink_ub') else list(cfg['ub'])
         sp = L['SearchSpace'](n_agents=cfg['n_agents'], n_variables=cfg['n_vars'], n_iterations=cfg['n_iter'],
-                              lower_bound=list(cfg['lb']), upper_bound=list(cfg['ub']))
+                              lower_bound=list(cfg['lb']), upper_bound=ub0)
     elif cfg['space'] == 'hyper':
         sp = L['HyperSpace'](n_agents=cfg['n_agents'], n_variables=cfg['n_vars'], n_dimensions=cfg['n_dims'],
                              n_iterations=cfg['n_iter'], lower_bound=list(cfg['lb']), upper_bound=list(cfg['ub']))
@@ -567,6 +580,24 @@ def build_task(L, cfg, events):
                             n_iterations=cfg['n_iter'], min_depth=cfg['min_depth'], max_depth=cfg['max_depth'],
                             functions=list(cfg['functions']), lower_bound=list(cfg['lb']),
                             upper_bound=list(cfg['ub']))
+    if cfg.get('fresh_agents') and cfg['space'] == 'search':
+        # the population replaced, through the public setter, by freshly constructed agents (which carry the default unit bounds)
+        # placed where the space's own agents were
+        fresh = [L['Agent'](n_variables=cfg['n_vars'], n_dimensions=1) for _ in sp.agents]
+        for f_, a_ in zip(fresh, sp.agents):
+            f_.position = np.array(a_.position, copy=True)
+        sp.agents = fresh
+    if cfg.get('shrink_ub') and cfg['space'] == 'search':
+        # the space was built on a larger box; every agent has been through its own check_limits once (a warm start); then only
+        # the upper bounds are re-declared, on the space and on every agent, through the public setters, and the user brings the
+        # population back into the new box with the space-wide clip
+        for a in sp.agents:
+            a.check_limits()
+        new_ub = np.asarray(list(cfg['ub']), dtype=float)
+        sp.ub = new_ub
+        for a in sp.agents:
+            a.ub = np.array(new_ub, copy=True)
+        sp.check_limits()
     if cfg.get('reassign_bounds'):
         # the bounds re-declared (with the same values) through the space's public setters after construction
         sp.lb = np.asarray(list(cfg['lb']))
@@ -678,6 +709,11 @@ def record_run(cfg):
         REC.in_hook = True
         try:
             fr = sys._getframe(1)
+            for _ in range(4):
+                # (the hook may have been handed over inside a wrapper: the frame that called it is the first `run` above)
+                if fr.f_code.co_name == 'run' or fr.f_back is None:
+                    break
+                fr = fr.f_back
             lp = fr.f_locals.get('local_position')
             if lp is not None:
                 REC.local = lp
@@ -707,6 +743,18 @@ def record_run(cfg):
                     s.trees = [s.trees[q] for q in order]
                 if REC.local is not None and REC.kind in SWARM:
                     REC.local[:] = REC.local[order]
+            elif cfg['hook'] == 'narrow' and sum(1 for e_ in events if e_['t'] == 'hook') == 2:
+                # the ranges of the self-adapting hyperparameters narrowed through the public setters while the task runs
+                # (third hook call): from the next iteration on the schedules follow the ranges as they are now
+                changed = []
+                if hasattr(o, 'PAR_max') and hasattr(o, 'bw_max'):
+                    o.PAR_max = max(float(o.PAR_min), 0.3)
+                    o.bw_max = max(float(o.bw_min), 0.4 * float(o.bw_max))
+                    changed = ['PAR_max', 'bw_max']
+                elif hasattr(o, 'w_max') and hasattr(o, 'w_min'):
+                    o.w_max = 0.5 * (float(o.w_min) + float(o.w_max))
+                    changed = ['w_max']
+                rec['narrowed'] = dict(at=2, names=changed)
             elif cfg['hook'] == 'rebest':
                 # the best agent replaced, through the public setter, by an equal new object (as a hook injecting / restoring a
                 # known solution would do): from now on that object is the space's best agent
@@ -739,7 +787,12 @@ def record_run(cfg):
                 if cfg['prior'].get('other_objective'):
                     # … or another objective (much smaller values everywhere): nothing computed for it may survive
                     pof = _shifted(of)
-                if cfg['prior'].get('abort_at'):
+                if cfg['prior'].get('same_task'):
+                    # one Opytimizer object: a first task with another Function, then the objective is replaced through the public
+                    # setter and the recorded task is started on the same object
+                    rec['_task0'] = L['Opytimizer'](space=sp, optimizer=opt, function=L['Function'](pointer=pof))
+                    rec['_task0'].start()
+                elif cfg['prior'].get('abort_at'):
                     # the earlier task was interrupted by its hook (early stopping / budget exhausted) in the middle of an
                     # iteration; the recorded task resumes on the space as it was left
                     class _Stop(Exception):
@@ -773,7 +826,11 @@ def record_run(cfg):
         except Exception as ex:
             rec['error'] = dict(phase='prior', type=type(ex).__name__, msg=str(ex)[:300], frames=[])
             return rec
-    task = L['Opytimizer'](space=sp, optimizer=opt, function=fn)
+    if rec.get('_task0') is not None:
+        task = rec.pop('_task0')
+        task.function = fn
+    else:
+        task = L['Opytimizer'](space=sp, optimizer=opt, function=fn)
     rec['hp0'] = hp_snapshot(opt)
     REC.active = True
     import signal
@@ -790,7 +847,20 @@ def record_run(cfg):
             sbo = np.bool_(sbo)            # a flag computed with NumPy (`np.prod(sizes) > 500`)
         elif cfg.get('sbo_type') == 'int':
             sbo = int(sbo)
-        h = task.start(store_best_only=sbo, pre_evaluation_hook=hook)
+        the_hook = hook
+        if cfg.get('hook_sig') == 'varargs':
+            the_hook = (lambda *a: hook(*a))          # a hook written with *args
+        elif cfg.get('hook_sig') == 'callable':
+            class _H:
+                def __call__(self, *args, **kwargs):
+                    return hook(*args, **kwargs)
+            the_hook = _H()
+        elif cfg.get('hook_sig') == 'method':
+            class _M:
+                def on_iteration(self, *args):
+                    return hook(*args)
+            the_hook = _M().on_iteration
+        h = task.start(store_best_only=sbo, pre_evaluation_hook=the_hook)
         rec['history'] = h
         rec['final'] = snapshot(L)
         rec['final_live'] = live_checks(L, sp, cfg)
